@@ -85,8 +85,10 @@ func (r *Run) Unresolved(rule, what string) {
 // Floor demands that rule matched at least n instances (a rule matching nothing passes vacuously forever).
 func (r *Run) Floor(rule string, n int) { r.floors[rule] = n }
 
-func (r *Run) Stat(k string, n int)               { r.stats[k] += n }
-func (r *Run) Note(format string, a ...interface{}) { r.notes = append(r.notes, fmt.Sprintf(format, a...)) }
+func (r *Run) Stat(k string, n int) { r.stats[k] += n }
+func (r *Run) Note(format string, a ...interface{}) {
+	r.notes = append(r.notes, fmt.Sprintf(format, a...))
+}
 
 // Guard runs one rule and converts a panic inside it into an undischarged obligation.
 func (r *Run) Guard(rule string, f func()) {
